@@ -411,6 +411,8 @@ Proof.
       - eapply Hauto; [|exact H]. now rewrite !frame_set_phase. }
   destruct (crash_at F 32).
   { inv H. apply Hcrash, frame_set_phase. }
+  destruct (crash_at F 35).
+  { inv H. apply Hcrash. rewrite frame_set_ginst, frame_set_cur. apply frame_set_phase. }
   set (w9 := set_phase (set_ginst (set_cur (set_phase w7 PDaemonStarted) (t_to T)) (t_to T)) PCompleted) in *.
   assert (F9 : frame w9 = frame w7).
   { unfold w9. rewrite frame_set_phase, frame_set_ginst, frame_set_cur, frame_set_phase. reflexivity. }
@@ -465,7 +467,7 @@ Proof.
   unfold apply_flow. intros H Hnd.
   set (base := base_of w (t_arts T)) in *.
   set (w0 := set_gbase _ _) in H.
-  assert (Htriv : forall wx rr, g_base wx = Some (false, base, g_inst w) -> rr = RCrash \/ (rr = RErr /\ fs wx = fs w /\ cur wx = cur w) ->
+  assert (Htriv : forall wx rr, g_base wx = Some (false, base, cur w) -> rr = RCrash \/ (rr = RErr /\ fs wx = fs w /\ cur wx = cur w) ->
                                 apply_post v T w wx rr).
   { intros wx rr Hg Hr. unfold apply_post, Inv. rewrite Hg. splits; auto.
     - intros ->. destruct Hr as [|[? _]]; discriminate.
@@ -487,7 +489,7 @@ Proof.
     - exact D3.
     - apply base_of_functional.
     - exact D4. }
-  assert (Hg2 : g_base w2 = Some (true, base, g_inst w)).
+  assert (Hg2 : g_base w2 = Some (true, base, cur w)).
   { unfold w2, set_phase. simpl. rewrite S1. reflexivity. }
   assert (Hfs2 : fs w2 = fs w /\ cur w2 = cur w).
   { unfold w2. rewrite fs_set_phase, cur_set_phase. simpl. split; assumption. }
@@ -514,12 +516,12 @@ Proof.
   rewrite frame_set_obst, !frame_set_phase in F7.
   destruct sok; simpl in H.
   - apply swap_loop_ok in Esw as [Sw1 Sw2]; [|assumption].
-    apply (post_swap_spec v T F (cur w) w7 w' r base (g_inst w)) in H.
+    apply (post_swap_spec v T F (cur w) w7 w' r base (cur w)) in H.
     + destruct H as (P1 & P2 & P3 & P4 & P5). unfold apply_post. splits; auto.
       * intros Hr. destruct (P4 Hr) as (Q1 & Q2 & Q3 & Q4). splits; auto.
         intros a Ha. rewrite Q1. now apply Sw1.
       * intros Hr. destruct (P5 Hr) as (Q1 & Q2). splits; auto.
-        exists (g_inst w). rewrite P2, (gbase_of_frame _ _ F7). exact Hg2.
+        exists (cur w). rewrite P2, (gbase_of_frame _ _ F7). exact Hg2.
       * intros Hr. contradiction.
       * intros b gi Hb. rewrite P2, (gbase_of_frame _ _ F7), Hg2 in Hb. now inv Hb.
     + rewrite (gbase_of_frame _ _ F7). exact Hg2.
